@@ -458,6 +458,59 @@ def l1_locked_guard(F, r):
             r.fail(name, f"removes jobs/routes from a solution ({ss[0][2]}) but neither it, its direct callees nor its callers (2 levels) consult SolutionContext.locked: pinned jobs can be moved off their vehicle", F.loc(ss[0][0], ss[0][1]))
 
 
+def l3_markers_locked(F, r):
+    """reload / recharge marker jobs: removing one from a tour merges two load intervals WITHOUT any constraint evaluation (constraints are asked on insertion only), so
+    every marker job that sits in a tour must be in the locked set the ruin operators honour (C01-L1). The promotion step therefore locks (a) the markers it makes
+    required and (b) the markers already assigned to tours (those of an initial solution were never promoted). Decided on the backward slice of what is written into
+    SolutionContext.locked inside the route-interval enabler: it must reach Tour::jobs (b) and the ignored/required pools (a)."""
+    mod = "vrp_core::construction::enablers::route_intervals"
+    writes = []
+    for fid, fn in sorted(F.fns.items()):
+        if fn.get("module") != mod or "::promoted[" in fid:
+            continue
+        for bi, t in mir.calls(fn):
+            last = t["callee"].split("::")[-1]
+            if last not in ("extend", "insert") or not t["args"] or not mir.is_place(t["args"][0]):
+                continue
+            tgt = mir.trace(fn, t["args"][0])
+            if not any("locked" in p for _, _, p in tgt):
+                continue
+            writes.append((fid, fn, t))
+    if not writes:
+        raise AnchorError("route_intervals: no write into SolutionContext.locked")
+    from_tours = from_pools = False
+    for fid, fn, t in writes:
+        todo = [(fn, a) for a in t["args"][1:]]
+        seen = set()
+        while todo:
+            f2, a = todo.pop()
+            leaves, crossed = mir.deep_leaves(f2, a)
+            for k, v, p in leaves:
+                if k == "closure" and v not in seen and v in F.fns:
+                    seen.add(v)
+                    for g in F.family(v):
+                        for bi2, t2 in mir.calls(F.fns[g]):
+                            crossed.add(t2["callee"])
+                            if t2["callee"].endswith("RouteIntervals::filter_markers"):
+                                from_pools = True
+                if any(x in ("ignored", "required") for x in p):
+                    from_pools = True
+            if any(c.endswith("solution::tour::Tour::jobs") for c in crossed):
+                from_tours = True
+            if any(c.endswith("RouteIntervals::filter_markers") for c in crossed):
+                from_pools = True
+    where = F.loc(writes[0][0], writes[0][2]["ln"])
+    if from_tours:
+        r.ok("marker promotion: assigned markers locked", "the locked set is extended with the marker jobs found in the tours (Tour::jobs)")
+    else:
+        r.fail("marker promotion: assigned markers locked", "nothing written into SolutionContext.locked derives from the jobs of the tours: a reload/recharge marker that is already assigned "
+               "(e.g. through an initial solution) is never locked, a ruin step may remove it and the merged interval exceeds the capacity without any constraint being asked", where)
+    if from_pools:
+        r.ok("marker promotion: promoted markers locked", "the markers made required are locked")
+    else:
+        r.fail("marker promotion: promoted markers locked", "the marker jobs moved to `required` are not written into the locked set", where)
+
+
 TCOST = "vrp_core::models::problem::costs::TransportCost::"
 LEG_RANK = {"prev": 0, "first": 0, "start": 0, "from": 0, "target": 1, "next": 2, "second": 2, "end": 2, "to": 2}
 
@@ -2046,4 +2099,5 @@ def run(ctx):
     ctx.run("C01-D1", "routing legs are queried in travel direction (prev -> target -> next)", d1_leg_direction, floor=4)
     ctx.run("C01-K1", "slot type agreement: every reader of a TypeId-keyed slot uses a type some writer stores", k1_slot_types, floor=40)
     ctx.run("C01-K2", "no orphan slot: every slot read by a hard constraint has a writer", k2_no_orphans, floor=15)
+    ctx.run("C01-L3", "reload / recharge markers sitting in tours are locked (their removal is not constraint-checked)", l3_markers_locked, floor=2)
     ctx.run("C01-L1", "every tour/route removal is guarded by the locked-jobs set", l1_locked_guard, floor=10)
